@@ -77,6 +77,17 @@ func (e *Enc) encodeCall(fr *frame, st *bstate, res ssa.Value, call *ssa.CallCom
 				}
 			}
 		}
+		// a value of a named function type may have a contract attached to the type ("func pkg#Type"):
+		// an assumption about every function value of that type
+		if named, ok := types.Unalias(call.Value.Type()).(*types.Named); ok && named.Obj().Pkg() != nil {
+			key := named.Obj().Pkg().Path() + "#" + named.Obj().Name()
+			if c := e.P.reg.Contracts[key]; c != nil {
+				e.curCallArgs = ssaArgs
+				e.externs[key+" (contract assumed of every function value of this type)"] = true
+				bind(e.applyFieldFuncContract(fr, st, c, call.Signature(), args, resType, pos))
+				return
+			}
+		}
 		e.unknownCall(st, "func-value:"+call.Value.Type().String(), pos)
 		bind(e.freshVal(st, resType, "dyn"))
 		return
